@@ -45,4 +45,4 @@ def c03_conversion_error_class_follows_block_order(w):
     if k.get('operation') in ('astype_all', 'astype_cols', 'astype_cols_present_dtype'):
         return True
     # element-wise operators over object cells: every layout raises, which failing cell NumPy meets first follows the block shape
-    return k.get('operation') in ('binop_scalar', 'binop_array', 'unary') and 'O' in (k.get('dtype_kinds') or [])
+    return k.get('operation') in ('binop_scalar', 'binop_array', 'unary', 'via_str') and 'O' in (k.get('dtype_kinds') or [])
